@@ -117,6 +117,16 @@ func VerifC11aTemplate(t, h int) {
 	verifrt.Reach("parsed")
 }
 
+// VerifC11aShapes: select lists of h bytes over the structural characters of a
+// select item only (parentheses, quotes, comma, blank, two letters): every
+// arrangement of them, well-formed or not, is parsed or rejected, never a crash.
+func VerifC11aShapes(h int) {
+	dlog.VerifInstall(source.Client)
+	q := "select " + verifrt.StringIn("h", h, "()ac\"`, ") + " from t"
+	c11NoPanic(q)
+	verifrt.Reach("parsed")
+}
+
 // ---------------------------------------------------------------- C11b: denotation
 
 type c11Sel struct {
